@@ -96,6 +96,7 @@ import Y0.Lemmas.CfNsi
 import Y0.Lemmas.CfTermC
 import Y0.Lemmas.CfFragC
 import Y0.Lemmas.CfStarZero
+import Y0.Lemmas.CfMwD
 import Mathlib.Tactic.NormNum
 import Mathlib.Algebra.Order.Field.Rat
 
@@ -652,6 +653,113 @@ theorem idstar_sound_fragment2R (M : Model) (ν : BaseValues) (hν : ν.Distinct
         · rw [hcl] at hviol'; cases hviol'
         · exact idStarFuel_sound_lit M ν dom hM (fun pmf hp => (hnorm pmf hp).2) hdom hG hdl hbl hord hdo _ _ _ hne' hone
             (sKeys_starOf _) hviol' hcl _ e h
+
+/-! ### fragment 3: events that are still multi-world after line 3 -/
+
+/-- **Fragment 3** `InFragment3 ordf G ev`: a well-formed event (any number of worlds) that does not violate effectiveness, keeps a
+conjunct after line 3, and whose counterfactual graph `g` (built by line 4 from the event without its tautologies) satisfies
+`Frag3At` (Lemmas/CfMwC.lean): (a) at most one non-self-intervened node per variable; (b) no non-self-intervened node named like a
+subscript of a node of `g`; (c) the subscripts of the nodes of `g` are mutually consistent; (d) bidirected edges of `G` between
+non-self-intervened nodes are edges of `g`; (e) if line 9 answers, the subscript by which a self-intervened node is intervened is a
+subscript of a non-self-intervened node; if line 6 answers, no starred-valued key is a parent of a non-self-intervened node and no node
+is self-intervened on a starred subscript.  Decidable: `inFragment3B`.  (a), (b) exclude F10/M3a, M3b, M5, D1, D2; (e) excludes F10/M1, M2.
+Measured (tools/c07_boundary.py): no event inside fragment 3 is answered wrongly; of the events that are still multi-world after
+line 3, get an estimand and are outside it, 88% are answered wrongly. -/
+def InFragment3 (ordf : List World → List World) (G : MG Name) (ev : Event) : Prop :=
+  GoodEv G ev ∧ violatesEffectiveness ev = false ∧ removeTautologies ev ≠ [] ∧
+    ∃ g nev, makeCounterfactualGraph ordf G (removeTautologies ev) = .ok (g, some nev) ∧ Frag3At G g nev
+
+theorem frag3AtB_sound (g : MG Var) (nev : Event) (h : frag3AtB G g nev = true) : Frag3At G g nev := by
+  unfold frag3AtB at h
+  simp only [Bool.and_eq_true, List.all_eq_true, decide_eq_true_eq, Bool.or_eq_true, Bool.not_eq_eq_eq_not, Bool.not_true,
+    ne_eq] at h
+  obtain ⟨⟨⟨⟨hinj, hsep⟩, hcons⟩, hbi⟩, hroute⟩ := h
+  refine ⟨hinj, hsep, consistentB_sound _ hcons, ?_, ?_, ?_⟩
+  · intro a ha b hb hna hnb hab hbiG
+    rcases hbi a ha b hb with (((h' | h') | h') | h') | h'
+    · rw [hna] at h'; cases h'
+    · rw [hnb] at h'; cases h'
+    · exact absurd h' hab
+    · exfalso
+      rcases hbiG with h1 | h1
+      · simp [h1] at h'
+      · simp [h1] at h'
+    · unfold MG.hasBi at h'
+      simp only [Bool.or_eq_true, decide_eq_true_eq] at h'
+      exact h'
+  · intro hc x hx hxn i hi hin
+    rw [hc] at hroute
+    simp only [List.all_eq_true, Bool.or_eq_true, decide_eq_true_eq] at hroute
+    rcases hroute x hx with h' | h'
+    · rw [hxn] at h'; cases h'
+    · rcases h' i hi with h'' | h''
+      · exact absurd hin h''
+      · exact (elem'_iff _ _).1 h''
+  · intro hc
+    rw [hc] at hroute
+    simp only [Bool.and_eq_true, List.all_eq_true, Bool.or_eq_true, Bool.not_eq_eq_eq_not, Bool.not_true,
+      decide_eq_true_eq] at hroute
+    obtain ⟨h1, h2⟩ := hroute
+    constructor
+    · intro k hk hs n hn
+      obtain ⟨v, hv⟩ := (mem_keys_iff nev k).1 hk
+      rcases h1 (k, v) hv with h' | h'
+      · simp only at h'
+        rw [hs] at h'
+        cases h'
+      · exact h' n hn
+    · intro x hx hxn i hi hin
+      rcases h2 x hx with h' | h'
+      · rw [hxn] at h'; cases h'
+      · rcases h' i hi with h'' | h''
+        · exact absurd hin h''
+        · exact h''
+
+theorem inFragment3B_sound {ordf : List World → List World} (ev : Event) (h : inFragment3B ordf G ev = true) :
+    InFragment3 ordf G ev := by
+  unfold inFragment3B at h
+  simp only [Bool.and_eq_true, Bool.not_eq_eq_eq_not, Bool.not_true, List.isEmpty_eq_false_iff] at h
+  obtain ⟨⟨⟨hgood, hviol⟩, hne⟩, hm⟩ := h
+  refine ⟨goodEvB_sound G ev hgood, hviol, hne, ?_⟩
+  cases hcg : makeCounterfactualGraph ordf G (removeTautologies ev) with
+  | error err => rw [hcg] at hm; cases hm
+  | ok v =>
+    rcases v with ⟨g, o⟩
+    rw [hcg] at hm
+    cases o with
+    | none => cases hm
+    | some nev => exact ⟨g, nev, rfl, frag3AtB_sound G g nev hm⟩
+
+/-- **ID\* is sound on fragment 3, under the reading of the property** (`cden2`; the outcome variables take the values `sigma0` of
+the relabelled event: the event's values, `x'` for a variable with a starred subscript) -/
+theorem idstar_sound_fragment3 (M : Model) (ν : BaseValues) (hν : ν.Distinct) (dom : Name → Nat) (hM : Compatible M G)
+    (hnorm : M.Normalised) (hdom : ∀ v ps us, M.f v ps us < dom v) (hG : G.WF) (hdl : ∀ e ∈ G.di, e.1 ≠ e.2)
+    (hbl : ∀ e ∈ G.bi, e.1 ≠ e.2) {ordf : List World → List World} (hord : PermOrder ordf) {dordf : List Var → List Var}
+    (hdo : PermDistrict dordf) (ev : Event) (hfr : InFragment3 ordf G ev) (e : Expr)
+    (h : idStar ordf dordf G ev = .ok e) :
+    ∃ g nev, makeCounterfactualGraph ordf G (removeTautologies ev) = .ok (g, some nev) ∧
+      cden2 M ν dom e (sigma0 ν g nev) (fun n => ν n false) = probEvent M ν ev := by
+  obtain ⟨hev, hviol, hne', g, nev, hcg, h3⟩ := hfr
+  refine ⟨g, nev, hcg, ?_⟩
+  have hwf : EventWF M ev := ⟨hev.ok.names,
+    fun p hp => (hM.perm.mem_iff).2 (hev.keys p.1 ((mem_keys_iff ev p.1).2 ⟨p.2, hp⟩)).inG,
+    fun p hp => (hev.keys p.1 ((mem_keys_iff ev p.1).2 ⟨p.2, hp⟩)).subs⟩
+  have hne : ev ≠ [] := by
+    intro h0
+    rw [h0] at hne'
+    exact hne' rfl
+  obtain ⟨b, hb⟩ := idStarFuelBound_ge G ev
+  unfold idStar at h
+  rw [hb] at h
+  rcases idStarFuel_top_shape2 ordf dordf G ev hviol hev.ok hne b with ⟨h0, _⟩ | ⟨f, _, hrun⟩
+  · exact absurd h0 hne'
+  · rw [hrun] at h
+    have hk' : KeysNSI (removeTautologies ev) := keysNSI_of_lines123 _ hne' (violates_removeTautologies ev hviol)
+      (by rw [removeTautologies_idem]; exact eqv_self _ (evOK_removeTautologies ev hev.ok).nodup)
+      (evOK_removeTautologies ev hev.ok)
+    rw [← idstar_line3_sound M ν ev hwf]
+    exact lines4to9_sound_mw_lit M ν dom hM (fun pmf hp => (hnorm pmf hp).2) hν hdom hG hdl hbl hord hdo _
+      (goodEv_removeTautologies hev) hk' f e h g nev hcg h3
 
 /-! ### Zero -/
 
